@@ -145,20 +145,19 @@ def run(rep, tier, seed):
             return None
         return int(r.end_time) + 2
     ends, _ = engine.parallel_map(ref_work, cfgs)
-    items = []
+    groups = []
     for (sc, case), T in zip(cfgs, ends):
         if T is None:
             continue
-        items.append((sc, case, T, None))
-        for h in histories(T, tier):
-            items.append((sc, case, T, h))
+        groups.append((sc, case, T, [None] + histories(T, tier)))
 
-    refs = {}
-
-    def work(i, item):
-        sc, case, T, h = item
+    def gwork(i, g):
+        sc, case, T, hs = g
         rc = dict(case, runtime=T)
         r0, ref, _ = observe(rc)
+        return [one(case, T, h, rc, r0, ref) for h in hs]
+
+    def one(case, T, h, rc, r0, ref):
         if ref is None:
             return ("skip", [], 0)
         if h is None:
@@ -177,7 +176,12 @@ def run(rep, tier, seed):
         vs = diff(ref, got)
         vs += mons[0].problems
         return ("run", vs, r.probe.n_events)
-    res, _ = engine.parallel_map(work, items)
+    gres, _ = engine.parallel_map(gwork, groups, chunk=1)
+    items, res = [], []
+    for (sc, case, T, hs), rr in zip(groups, gres):
+        for h, r in zip(hs, rr or []):
+            items.append((sc, case, T, h))
+            res.append(r)
     for (sc, case, T, h), (kind, vs, ne) in zip(items, res):
         if kind == "skip":
             continue
